@@ -10,7 +10,12 @@ import re
 
 MODULES = ["TLVerif.Props.C41"]
 THEOREMS = ["TLVerif.Props.C41." + t for t in [
-    "facts_ok",
+    "facts_ok", "panic_sites_ok",
+    "spec_insert_sorted", "spec_erase_sorted", "spec_insert_is_map", "spec_erase_is_map", "spec_lookup_is_map",
+    "spec_head_smallest", "spec_last_largest",
+    "tree_empty", "tree_set_refines", "tree_delete_refines", "tree_get_refines", "tree_front_refines",
+    "tree_back_refines", "tree_empty_refines", "tree_lenMoreThan1_refines", "tree_validate_ok", "tree_history_refines",
+    "witness_chain", "avl_strict_fails_at", "avl_balance_partial", "avl_strict_after_fix", "avl_strict_iff",
 ]]
 
 # The shortest history on which strict AVL balance fails on the unchanged code (DESIGN §6 L1); key of the known finding.
